@@ -666,8 +666,102 @@ def builders(repo: Repo, rep: Report) -> None:
         rep.undecide("PUR-2", f"build_neighbor_generator: {ex}")
 
 
+
+def _ambient_aliases(tree: ast.AST) -> Dict[str, str]:
+    aliases: Dict[str, str] = {}
+    for node in ast.walk(tree):
+        if isinstance(node, ast.Import):
+            for a in node.names:
+                if a.name.split(".")[0] in ("random", "secrets") or a.name in ("numpy.random",):
+                    aliases[a.asname or a.name.split(".")[0]] = a.name
+        elif isinstance(node, ast.ImportFrom) and node.module and not node.level and (
+                node.module.split(".")[0] in ("random", "secrets") or node.module == "numpy.random"):
+            for a in node.names:
+                aliases[a.asname or a.name] = node.module + "." + a.name
+    return aliases
+
+
+def bench_generators(repo: Repo, rep: Report) -> None:
+    """RNG-9: the generator entry points whose output bench/generator.py pins under use_deterministic_prng(True, seed=0) must draw
+    every random number through srandom: call-graph reachability inside the puzzle module from each pinned generate_* function;
+    a reachable function that reads Python's `random` / numpy.random / secrets makes the pinned output depend on the global state."""
+    rep.rule("RNG-9", "the puzzle generators pinned by bench/generator.py reach no use of Python's random / numpy.random / secrets "
+                      "(call graph inside the puzzle module); every draw goes through srandom")
+    bench = "bench/generator.py"
+    if not repo.has(bench):
+        rep.undecide("RNG-9", f"{bench} vanished")
+        return
+    bm = repo.mod(bench)
+    rep.saw(bench)
+    mod_alias: Dict[str, str] = {}
+    for node in ast.walk(bm.tree):
+        if isinstance(node, ast.Import):
+            for a in node.names:
+                if a.name.startswith("cspuz.puzzle."):
+                    mod_alias[a.asname or a.name] = a.name.split(".")[-1]
+        elif isinstance(node, ast.ImportFrom) and node.module == "cspuz.puzzle":
+            for a in node.names:
+                mod_alias[a.asname or a.name] = a.name
+    entries: Set[Tuple[str, str]] = set()
+    for node in ast.walk(bm.tree):
+        if isinstance(node, ast.Attribute) and isinstance(node.value, ast.Name) and node.value.id in mod_alias and node.attr.startswith("generate"):
+            entries.add((mod_alias[node.value.id], node.attr))
+    if len(entries) < 3:
+        raise AnalysisError(f"RNG-9: only {len(entries)} pinned generators found in {bench}")
+    for modname, fn in sorted(entries):
+        file = f"cspuz/puzzle/{modname}.py"
+        if not repo.has(file) or fn not in repo.mod(file).funcs:
+            raise AnalysisError(f"anchor vanished: {file}::{fn}")
+        m = repo.mod(file)
+        rep.saw(file, fn)
+        aliases = _ambient_aliases(m.tree)
+        # reachability over module-level function names (nested functions and lambdas are part of their parent's body)
+        top = {q: f for q, f in m.funcs.items() if "." not in q}
+        seen_f: Set[str] = set()
+        todo = [fn]
+        while todo:
+            q = todo.pop()
+            if q in seen_f or q not in top:
+                continue
+            seen_f.add(q)
+            for node in ast.walk(top[q]):
+                if isinstance(node, ast.Name) and node.id in top and node.id not in seen_f:
+                    todo.append(node.id)
+        bad = None
+        for q in sorted(seen_f):
+            for node in ast.walk(top[q]):
+                if isinstance(node, ast.Name) and isinstance(node.ctx, ast.Load) and node.id in aliases:
+                    par = getattr(node, "_parent", None)
+                    bad = (q, short(par) if par is not None else node.id, getattr(node, "lineno", None), aliases[node.id])
+                    break
+            if bad:
+                break
+        if bad:
+            rep.finding("RNG-9", file, bad[0], bad[1],
+                        f"{fn} (pinned by {bench} under the deterministic PRNG) reaches `{bad[1]}` in {bad[0]}, which draws from {bad[3]}: "
+                        "the pinned output depends on Python's global random state", bad[2])
+        else:
+            rep.ok("RNG-9", f"{file}::{fn}: {len(seen_f)} reachable module functions, no ambient randomness")
+    # information: other puzzle generators that call generate_problem and also draw ambient randomness (not pinned, not a violation)
+    mixed = []
+    for m in repo.iter("cspuz/puzzle/"):
+        al = _ambient_aliases(m.tree)
+        if not al:
+            continue
+        for q, f in m.funcs.items():
+            if "." in q or not q.startswith("generate"):
+                continue
+            names = {n.id for n in ast.walk(f) if isinstance(n, ast.Name)}
+            if "generate_problem" in names and names & set(al):
+                mixed.append(f"{m.rel}::{q}")
+    if mixed:
+        rep.info("generators outside the pinned set that call generate_problem and also read Python's random directly "
+                 f"(their arguments to generate_problem are not reproducible under the deterministic PRNG): {mixed}")
+
+
 def run(repo: Repo, rep: Report) -> None:
     confinement(repo, rep)
+    bench_generators(repo, rep)
     dispatch(repo, rep)
     bits = bitwidth(repo, rep)
     sampling(repo, rep, bits)
